@@ -172,7 +172,10 @@ JAVA_MEM = {'JAVA_TOOL_OPTIONS': '-Xmx3g'}     # several JVMs run side by side: 
 
 
 def _validate(batch):
-    return tlc.validate_all('RetryTrace', 'RetryTrace.cfg', batch, timeout=1500, env=JAVA_MEM)
+    try:
+        return tlc.validate_all('RetryTrace', 'RetryTrace.cfg', batch, timeout=1500, env=JAVA_MEM)
+    except RuntimeError:        # a JVM that could not start / was killed: once more before giving up (exit 2)
+        return tlc.validate_all('RetryTrace', 'RetryTrace.cfg', batch, timeout=1500, env=JAVA_MEM)
 
 
 # ---- comparison ---------------------------------------------------------------------------------------------------
